@@ -209,6 +209,17 @@ def run_config(chk, facts, cfg):
                     chk.ob("C07-c", f"{site} -> {norm}", True)
                     continue
                 ck = (b.path, m, o)
+                if ck not in CONFIRMED:
+                    # the function was renamed or moved: a confirmed entry whose function no longer exists, in the same
+                    # module, for the same iteration method and ordinal, is carried over (and reported as such)
+                    mod = b.path.rsplit("::", 1)[0]
+                    for ok_ in CONFIRMED:
+                        if ok_ in seen_conf or ok_[1] != m or ok_[2] != o or ok_[0].rsplit("::", 1)[0] != mod:
+                            continue
+                        if facts.body(ok_[0], _fuzzy=False) is None:
+                            chk.notes.append(f"C07-c: confirmed entry for {ok_[0]} carried over to {b.path} (the former no longer exists)")
+                            ck = ok_
+                            break
                 if ck in CONFIRMED and random_state and not (keyed_by_oid and m not in ("difference", "into_iter", "iter")):
                     seen_conf.add(ck)
                     chk.ob("C07-c", f"{site} -> {norm}", True, why="confirmed: " + CONFIRMED[ck])
